@@ -41,6 +41,21 @@ func hexTok(b []byte) string {
 	return hex.EncodeToString(b)
 }
 
+// law records a failed law; at most lawCap full records per law name (the rest are only counted),
+// so that every distinct law name reaches the orchestrator
+const lawCap = 4
+
+var lawSeen = map[string]int{}
+
+func lawFail(o *hc.Out, name string, replay interface{}) {
+	lawSeen[name]++
+	if lawSeen[name] <= lawCap {
+		o.Law(name, replay)
+	} else {
+		o.Count("law_fail:" + name)
+	}
+}
+
 // ---------- real encode / real load ----------
 
 func realEncode(t *table, o opts) ([]byte, error) {
@@ -262,7 +277,7 @@ func encCase(g *hc.Gen, o *hc.Out) {
 	if err == nil {
 		impl = hexTok(b)
 	} else if len(b) > 0 {
-		o.Law("refuse:"+fmtName(f)+":partial_output", map[string]interface{}{"op": line, "emitted_bytes": len(b), "error": err.Error()})
+		lawFail(o, "refuse:"+fmtName(f)+":partial_output", map[string]interface{}{"op": line, "emitted_bytes": len(b), "error": err.Error()})
 	}
 	o.Case(line, impl)
 	o.Count("enc:" + fmtName(f))
@@ -423,7 +438,7 @@ func decCase(g *hc.Gen, o *hc.Out, dir string) {
 		kind = "ok"
 		for _, r := range d.rows {
 			if len(r) != len(d.header) {
-				o.Law("rectangular:"+fmtName(f), map[string]interface{}{"op": line, "loaded": d.String()})
+				lawFail(o, "rectangular:"+fmtName(f), map[string]interface{}{"op": line, "loaded": d.String()})
 				break
 			}
 		}
@@ -431,7 +446,7 @@ func decCase(g *hc.Gen, o *hc.Out, dir string) {
 			kind = "ok-empty"
 		}
 	} else if isFatal(lerr) {
-		o.Law("decode:"+fmtName(f)+":fatal", map[string]interface{}{"op": line, "error": firstLine(lerr.Error())})
+		lawFail(o, "decode:"+fmtName(f)+":fatal", map[string]interface{}{"op": line, "error": firstLine(lerr.Error())})
 		kind = "fatal"
 	}
 	o.Case(line, impl)
@@ -795,10 +810,10 @@ func rtCase(g *hc.Gen, o *hc.Out, dir string) {
 	if encErr != nil && encErr != query.DataEmpty {
 		o.Count("rt:" + name + ":refused")
 		if len(data) > 0 {
-			o.Law("refuse:"+name+":partial_output", replay(map[string]interface{}{"error": firstLine(encErr.Error())}))
+			lawFail(o, "refuse:"+name+":partial_output", replay(map[string]interface{}{"error": firstLine(encErr.Error())}))
 		}
 		if !refuse {
-			o.Law("roundtrip:"+name+":"+refusedName(classify(t, op, ending, encErr)), replay(map[string]interface{}{"error": firstLine(encErr.Error())}))
+			lawFail(o, "roundtrip:"+name+":"+refusedName(classify(t, op, ending, encErr)), replay(map[string]interface{}{"error": firstLine(encErr.Error())}))
 		}
 		o.NonTrivial(sigBase + "|refused:" + why)
 		o.Case("c02.nop", "ok")
@@ -859,7 +874,7 @@ func rtCase(g *hc.Gen, o *hc.Out, dir string) {
 				law = "automatic_positions"
 			}
 		}
-		o.Law("roundtrip:"+name+":"+law, replay(extra))
+		lawFail(o, "roundtrip:"+name+":"+law, replay(extra))
 		o.NonTrivial(sigBase + "|fail")
 	} else {
 		o.NonTrivial(sigBase + "|ok")
@@ -974,7 +989,7 @@ func diaCase(g *hc.Gen, o *hc.Out, dir string) {
 	o.Case("c02.nop", "ok")
 	o.NonTrivial("dia|" + d.sig() + "|" + b01(withEnd) + "|" + encName(importEnc))
 	if uerr != nil {
-		o.Law("dialect:"+name+":update_failed", replay(map[string]interface{}{"error": firstLine(uerr.Error())}))
+		lawFail(o, "dialect:"+name+":update_failed", replay(map[string]interface{}{"error": firstLine(uerr.Error())}))
 		return
 	}
 	after, err := os.ReadFile(filepath.Join(dir, fname))
@@ -993,9 +1008,9 @@ func diaCase(g *hc.Gen, o *hc.Out, dir string) {
 		// only the ending line break differs: it is written from the session's --line-break flag, as raw bytes
 		tail := after[len(wantBody):]
 		if utf16Family(d.enc) {
-			o.Law("dialect:"+name+":ending_line_break_not_transcoded", replay(extra))
+			lawFail(o, "dialect:"+name+":ending_line_break_not_transcoded", replay(extra))
 		} else if !bytes.Equal(tail, end) {
-			o.Law("dialect:"+name+":ending_line_break_kind", replay(extra))
+			lawFail(o, "dialect:"+name+":ending_line_break_kind", replay(extra))
 		}
 	default:
 		// which convention was lost?
@@ -1021,7 +1036,7 @@ func diaCase(g *hc.Gen, o *hc.Out, dir string) {
 			o.Count("dia:" + name + ":enclose_all_ambiguous")
 			return
 		}
-		o.Law("dialect:"+name+":"+what, replay(extra))
+		lawFail(o, "dialect:"+name+":"+what, replay(extra))
 	}
 }
 
